@@ -115,8 +115,29 @@ struct SymBool {
   std::string term() const { return known ? (val ? "true" : "false") : "n" + std::to_string(id); }
 };
 
+// -DVSYM_FP: IEEE-754 binary64 semantics (SMT-LIB FloatingPoint, round-nearest-even) instead of reals; used for the
+// small kernels whose behaviour *at* a rounding boundary is the question (innovation editing threshold)
+#ifdef VSYM_FP
+#define VSYM_SORT "(_ FloatingPoint 11 53)"
+inline std::string fp_op(const char* op) {
+  std::string o(op);
+  if (o == "+") return "fp.add RNE";
+  if (o == "-") return "fp.sub RNE";
+  if (o == "*") return "fp.mul RNE";
+  if (o == "/") return "fp.div RNE";
+  if (o == ">") return "fp.gt";
+  if (o == ">=") return "fp.geq";
+  if (o == "<") return "fp.lt";
+  if (o == "<=") return "fp.leq";
+  if (o == "=") return "fp.eq";
+  return o;
+}
+#else
+#define VSYM_SORT "Real"
+inline std::string fp_op(const char* op) { return op; }
+#endif
 inline Sym bin(const char* op, const Sym& a, const Sym& b) {
-  return Sym::node(std::string("(") + op + " " + a.term() + " " + b.term() + ")");
+  return Sym::node(std::string("(") + fp_op(op) + " " + a.term() + " " + b.term() + ")");
 }
 constexpr Sym operator+(const Sym& a, const Sym& b) {
   return (a.is_const() && b.is_const()) ? Sym(a.c + b.c) : (a.is_const() && a.c == 0.0) ? b : (b.is_const() && b.c == 0.0) ? a : bin("+", a, b);
@@ -134,7 +155,11 @@ constexpr Sym operator*(const Sym& a, const Sym& b) {
 constexpr Sym operator/(const Sym& a, const Sym& b) {
   return (a.is_const() && b.is_const()) ? Sym(a.c / b.c) : (b.is_const() && b.c == 1.0) ? a : bin("/", a, b);
 }
+#ifdef VSYM_FP
+constexpr Sym operator-(const Sym& a) { return a.is_const() ? Sym(-a.c) : Sym::node("(fp.neg " + a.term() + ")"); }
+#else
 constexpr Sym operator-(const Sym& a) { return a.is_const() ? Sym(-a.c) : Sym::node("(- " + a.term() + ")"); }
+#endif
 constexpr Sym operator+(const Sym& a) { return a; }
 inline Sym& operator+=(Sym& a, const Sym& b) { return a = a + b; }
 inline Sym& operator-=(Sym& a, const Sym& b) { return a = a - b; }
@@ -142,7 +167,7 @@ inline Sym& operator*=(Sym& a, const Sym& b) { return a = a * b; }
 inline Sym& operator/=(Sym& a, const Sym& b) { return a = a / b; }
 
 inline SymBool cmp(const char* op, const Sym& a, const Sym& b) {
-  return SymBool(Store::get().add(std::string("(") + op + " " + a.term() + " " + b.term() + ")", true), 0);
+  return SymBool(Store::get().add(std::string("(") + fp_op(op) + " " + a.term() + " " + b.term() + ")", true), 0);
 }
 constexpr SymBool operator>(const Sym& a, const Sym& b) { return (a.is_const() && b.is_const()) ? SymBool(a.c > b.c) : cmp(">", a, b); }
 constexpr SymBool operator>=(const Sym& a, const Sym& b) { return (a.is_const() && b.is_const()) ? SymBool(a.c >= b.c) : cmp(">=", a, b); }
@@ -151,7 +176,7 @@ constexpr SymBool operator<=(const Sym& a, const Sym& b) { return (a.is_const() 
 constexpr SymBool operator==(const Sym& a, const Sym& b) { return (a.is_const() && b.is_const()) ? SymBool(a.c == b.c) : cmp("=", a, b); }
 inline SymBool operator!=(const Sym& a, const Sym& b) {
   if (a.is_const() && b.is_const()) return SymBool(a.c != b.c);
-  return SymBool(Store::get().add("(not (= " + a.term() + " " + b.term() + "))", true), 0);
+  return SymBool(Store::get().add("(not (" + fp_op("=") + " " + a.term() + " " + b.term() + "))", true), 0);
 }
 // no overloaded && / || / !: SymBool converts to bool (forking), which keeps the short-circuit semantics of the real code
 
@@ -161,7 +186,11 @@ inline Sym cos(const Sym& a) { return a.is_const() ? Sym(std::cos(a.c)) : un("co
 inline Sym tan(const Sym& a) { return a.is_const() ? Sym(std::tan(a.c)) : un("sin", a) / un("cos", a); }
 inline Sym exp(const Sym& a) { return a.is_const() ? Sym(std::exp(a.c)) : un("exp", a); }
 inline Sym log(const Sym& a) { return a.is_const() ? Sym(std::log(a.c)) : un("log", a); }
+#ifdef VSYM_FP
+inline Sym sqrt(const Sym& a) { return a.is_const() ? Sym(std::sqrt(a.c)) : Sym::node("(fp.sqrt RNE " + a.term() + ")"); }
+#else
 inline Sym sqrt(const Sym& a) { return a.is_const() ? Sym(std::sqrt(a.c)) : un("sqrt", a); }
+#endif
 inline Sym asin(const Sym& a) { return a.is_const() ? Sym(std::asin(a.c)) : un("asin", a); }
 inline Sym acos(const Sym& a) { return a.is_const() ? Sym(std::acos(a.c)) : un("acos", a); }
 inline Sym atan(const Sym& a) { return a.is_const() ? Sym(std::atan(a.c)) : un("atan", a); }
@@ -188,7 +217,12 @@ inline Sym pow(const Sym& a, const Sym& n) {
   fprintf(stderr, "vsym: unsupported pow exponent\n");
   _exit(3);
 }
+#ifdef VSYM_FP
+inline Sym abs(const Sym& a) { return a.is_const() ? Sym(std::fabs(a.c)) : Sym::node("(fp.abs " + a.term() + ")"); }
+inline Sym abs_real_unused(const Sym& a) {
+#else
 inline Sym abs(const Sym& a) {
+#endif
   return a.is_const() ? Sym(std::fabs(a.c)) : Sym::node("(ite (>= " + a.term() + " #D0000000000000000) " + a.term() + " (- " + a.term() + "))");
 }
 inline Sym fabs(const Sym& a) { return abs(a); }
@@ -213,7 +247,11 @@ inline Sym min(const Sym& a, const Sym& b) {
 }
 inline bool isfinite(const Sym&) { return true; }  // reals are finite (stated assumption)
 inline bool isnan(const Sym&) { return false; }
+#ifdef VSYM_FP
+inline Sym floor(const Sym& a) { return a.is_const() ? Sym(std::floor(a.c)) : Sym::node("(fp.roundToIntegral RTN " + a.term() + ")"); }
+#else
 inline Sym floor(const Sym& a) { return a.is_const() ? Sym(std::floor(a.c)) : Sym::node("(to_real (to_int " + a.term() + "))"); }
+#endif
 
 inline Sym::operator size_t() const {
   if (is_const()) return (size_t)c;
@@ -259,8 +297,8 @@ inline void finish() {
     perror("fopen");
     _exit(6);
   }
-  for (auto& d : s.decls) fprintf(f, "(declare-const %s Real)\n", d.c_str());
-  for (size_t i = 0; i < s.defs.size(); ++i) fprintf(f, "(define-fun n%zu () %s %s)\n", i, s.is_bool[i] ? "Bool" : "Real", s.defs[i].c_str());
+  for (auto& d : s.decls) fprintf(f, "(declare-const %s %s)\n", d.c_str(), VSYM_SORT);
+  for (size_t i = 0; i < s.defs.size(); ++i) fprintf(f, "(define-fun n%zu () %s %s)\n", i, s.is_bool[i] ? "Bool" : VSYM_SORT, s.defs[i].c_str());
   size_t k = 0;
   for (auto& p : s.pc) {
     fprintf(f, "(declare-const pc!%zu Bool)\n(assert (= pc!%zu %s))\n", k, k, p.c_str());
@@ -269,7 +307,7 @@ inline void finish() {
   for (auto& o : s.outs) {
     bool isb = o.first.rfind("B:", 0) == 0;
     std::string nm = isb ? o.first.substr(2) : o.first;
-    fprintf(f, "(declare-const out!%s %s)\n(assert (= out!%s %s))\n", nm.c_str(), isb ? "Bool" : "Real", nm.c_str(), o.second.c_str());
+    fprintf(f, "(declare-const out!%s %s)\n(assert (= out!%s %s))\n", nm.c_str(), isb ? "Bool" : VSYM_SORT, nm.c_str(), o.second.c_str());
   }
   for (auto& n : s.notes) fprintf(f, "; note %s\n", n.c_str());
   fclose(f);
